@@ -396,6 +396,7 @@ func c09WS(rng *rand.Rand, row map[string]interface{}) (map[string]interface{}, 
 	}
 	defer conn.Close()
 	preambleUnanswered := false
+	hadPreamble := false
 	// history of the connection: an earlier request whose id one of this row's frames will use again is still an open
 	// subscription (ids are the peer's business; every request frame with a valid id is owed its own response)
 	if rng.Intn(2) == 0 {
@@ -412,6 +413,7 @@ func c09WS(rng *rand.Rand, row map[string]interface{}) (map[string]interface{}, 
 			if err := conn.WriteMessage(websocket.TextMessage, []byte(`{"jsonrpc":"2.0","method":"S.Open0","params":[],"id":`+e.idRaw+`}`)); err != nil {
 				return nil, err
 			}
+			hadPreamble = true
 			for {
 				conn.SetReadDeadline(time.Now().Add(2 * time.Second))
 				_, msg, err := conn.ReadMessage()
@@ -454,6 +456,9 @@ func c09WS(rng *rand.Rand, row map[string]interface{}) (map[string]interface{}, 
 			}
 		}
 	}
+	if rng.Intn(3) == 0 { // a notification to a channel-returning method: like every notification it gets no frame in return
+		conn.WriteMessage(websocket.TextMessage, []byte(`{"jsonrpc":"2.0","method":"S.Open0","params":[]}`))
+	}
 	ents := []map[string]interface{}{}
 	if preambleUnanswered {
 		ents = append(ents, map[string]interface{}{"id": -1, "res": "neither", "code": 0, "v2": false, "vok": false})
@@ -478,6 +483,9 @@ func c09WS(rng *rand.Rand, row map[string]interface{}) (map[string]interface{}, 
 				return nil
 			}
 			if _, isReq := obj["method"]; isReq {
+				if !hadPreamble { // channel traffic nobody subscribed to on this connection
+					ents = append(ents, map[string]interface{}{"id": -1, "res": "neither", "code": 0, "v2": false, "vok": false})
+				}
 				continue
 			}
 			frames = append(frames, string(msg))
